@@ -1,6 +1,7 @@
 """C11 - probability distributions describe one law (exact-closed and state-machine part ONLY).
 
-Everything transcendental in C11 is NOT covered (see C11.meta.json level_note).  What is covered:
+What TLA+ cannot state (real-valued function values at general arguments) is NOT covered (see C11.meta.json level_note).
+What is covered:
 
 1  specs/dist/WeightedHeap.tla - the partial-sum heap of sampleuv.Weighted and distuv.Categorical as a
    state machine over integer weights.  R1: TLC proves HeapInv, the measure-preservation theorem of both
@@ -13,6 +14,13 @@ Everything transcendental in C11 is NOT covered (see C11.meta.json level_note). 
 3  specs/dist/SamplerProtocol.tla - accept/reject protocols of sampleuv / samplemv (Rejection, Importance,
    MetropolisHastings with BurnIn/Rate, IID, SampleUniformWeighted, LatinHypercube; distmat.UniformPermutation) with scripted
    targets, proposals and variates: counting invariants (R1), scripts replayed into the samplers (R2).
+4  specs/dist/RationalLaws.tla, SpecialFunctions.tla, MvLaws.tla (+ RatLib.tla, IncFns.tla) - the continuous laws of
+   distuv, the special functions of mathext and the laws of distmv at the points where they are exactly rational
+   (finite sums of the incomplete beta / gamma functions, power laws, rational moments derived from raw moments,
+   rational linear algebra of Schur complements) and the identities with rational right-hand sides (complement, inverse,
+   recurrence, symmetry, Prob = exp(LogProb), f(x)/exp(r)); the module prints (object, expression, exact rational,
+   tolerance class), the harness area dist-rat / dist-mv interprets the expression on the real objects and compares
+   through math/big.  R1: the lemmas guarding the oracle (Theorems) are TLC-checked on every parameter setting.
 """
 import json
 import os
@@ -38,14 +46,19 @@ def run_heap(ctx, binary, thorough):
         ctx.tlc("dist/WeightedHeap.tla", "dist/WeightedHeap.cfg", subst=heap_subst(n, w, kind, False, salt, 3),
                 name="R1 WeightedHeap %s n=%d w<=%d" % (kind, n, w), workers=4, coverage=(n == 5))
     # ---- R2: every transition, replayed ----
-    plan = [(1, 3, 3), (2, 3, 3), (3, 3, 3), (4, 3, 3), (5, 2, 3), (6, 1, 2), (7, 1, 2)]
+    # sizes 1..9: Reweight of EVERY index (not only the heap positions 2^k - 1) to every weight, each followed by the complete
+    # observation (a draw for every grid variate, Prob / CDF at all grid points)
+    plan = [(1, 3, 3), (2, 3, 3), (3, 3, 3), (4, 3, 3), (5, 2, 3), (6, 1, 2), (7, 1, 2), (8, 1, 1), (9, 1, 1)]
     if thorough:
-        plan = [(1, 3, 3), (2, 3, 4), (3, 3, 4), (4, 3, 4), (5, 3, 4), (6, 2, 3), (6, 3, 3), (7, 2, 2), (8, 2, 2)]
-    for kind in ("weighted", "categorical"):
-        for n, w, nall in plan:
-            cases = ctx.gen("dist/WeightedHeap.tla", "dist/WeightedHeap.cfg", subst=heap_subst(n, w, kind, True, salt, nall),
-                            name="R2 gen heap %s n=%d w<=%d" % (kind, n, w))
-            ctx.replay(binary, "dist-heap", cases, name="R2 replay heap %s n=%d w<=%d" % (kind, n, w))
+        plan = [(1, 3, 3), (2, 3, 4), (3, 3, 4), (4, 3, 4), (5, 3, 4), (6, 2, 3), (6, 3, 3), (7, 2, 2), (8, 2, 2), (9, 1, 2)]
+    def gen(kind, n, w, nall):
+        return lambda: (kind, n, w, ctx.gen("dist/WeightedHeap.tla", "dist/WeightedHeap.cfg",
+                                            subst=heap_subst(n, w, kind, True, salt, nall),
+                                            name="R2 gen heap %s n=%d w<=%d" % (kind, n, w)))
+
+    jobs = [gen(kind, n, w, nall) for kind in ("weighted", "categorical") for n, w, nall in plan]
+    for kind, n, w, cases in ctx.parallel(jobs, width=4):
+        ctx.replay(binary, "dist-heap", cases, name="R2 replay heap %s n=%d w<=%d" % (kind, n, w))
 
 
 def run(ctx):
@@ -56,6 +69,8 @@ def run(ctx):
         run_laws(ctx, binary, thorough)
     if have("SamplerProtocol.tla"):
         run_samplers(ctx, binary, thorough)
+    if have("RationalLaws.tla"):
+        run_rational(ctx, binary, thorough)
 
     ctx.assumptions += [
         "TLC/SANY and the CommunityModules Json module are trusted",
@@ -64,6 +79,12 @@ def run(ctx):
         "every cell boundary so that rounding cannot move the choice",
         "the harness's operand builders (float64 weights, scripted Source, test doubles for targets/proposals), its "
         "math/big decoding of the specification's rationals and the ulp tolerance test are trusted",
+        "rational laws: the harness interprets the specification's expression trees (method calls by reflection, + - * / "
+        "and math.Exp / math.Log where the specification wrote an exp / log node); math.Exp and math.Log of the Go "
+        "standard library are trusted to a few ulp; a literal n/d is passed as the nearest float64 (exact for the dyadic "
+        "arguments used wherever the tolerance class is `ops` or `exact`); tolerance classes: exact, ops = 8 ulp, "
+        "special = 1e-10, prob = 1e-10 of max(|v|,1), inverse = coarse = 1e-8, each relative to max(|expected|, largest "
+        "operand of a cancelling sum in the expression)",
         "the verdict on a draw is taken at the abstract level (index i drawn for exactly w_i grid variates, never an index "
         "of weight zero); a different measure-preserving assignment of variates to indices than the transcribed descent "
         "is counted as model drift, not as a violation",
@@ -73,7 +94,8 @@ def run(ctx):
              "or one constructor call, applied to a live object reached by a real history, followed by the complete "
              "observation of the post-state (every grid variate, boundary variates, Prob/CDF/Mean at all grid points); "
              "non-trivial = the call changes the state, draws, or must panic. laws: one case = one parameter setting with its "
-             "whole table. samplers: one case = one script.",
+             "whole table (discrete laws: every method on the whole argument grid; rational laws / mathext / distmv: every "
+             "check of the setting, counted in the stage's `checks`). samplers: one case = one script.",
         exhaustive=True)
 
 
@@ -89,6 +111,46 @@ def run_laws(ctx, binary, thorough):
         cases = ctx.gen("dist/DiscreteLaws.tla", "dist/DiscreteLaws.cfg", subst=sub,
                         name="R1+R2 laws %s dyadic bits=%d range=%d (theorems checked, tables printed)" % (law, dbits, maxn))
         ctx.replay(binary, "dist-laws", cases, name="R2 replay laws %s bits=%d range=%d" % (law, dbits, maxn))
+
+
+# ---- exact-rational points and rational-right-hand-side identities of the continuous laws, mathext and distmv ----
+LAW_GROUPS = [
+    ("beta-f", ["beta", "betabig", "f"]),
+    ("symmetric", ["studentst", "normal", "laplace", "logistic"]),
+    ("power-gamma", ["pareto", "exponential", "gamma", "chisquared", "chi", "inversegamma"]),
+    ("misc-extreme", ["weibull", "lognormal", "gumbel", "poisson", "normal-x", "laplace-x", "logistic-x", "studentst-x",
+                      "exponential-x", "gamma-x", "pareto-x", "weibull-x", "uniform-x"]),
+]
+FN_GROUPS = [
+    ("incomplete-beta", ["incbeta", "incbeta-general", "beta", "beta-special"]),
+    ("gamma-zeta-elliptic", ["digamma", "digamma-int", "gammainc", "zeta", "zeta-sums", "normalquantile", "normalquantile-special",
+                             "elliptic", "elliptic-squares", "elliptic-rc", "legendre", "elliptic-special", "mvlgamma"]),
+]
+MV_KINDS = ["normal", "studentst", "uniform", "dirichlet"]
+
+
+def run_rational(ctx, binary, thorough):
+    """One TLC run per group: the lemmas of the module (R1: Theorems) are checked on every parameter setting of the group
+    and the table of each setting is printed (R2); the tables are replayed into distuv / mathext / distmv."""
+    tier = 1 if thorough else 0
+    salt = ctx.seed % 1000
+    jobs = []
+    for name, laws in LAW_GROUPS:
+        sub = dict(LAWS=", ".join('"%s"' % l for l in laws), TIER=tier, SALT=salt, EMIT="TRUE")
+        jobs.append(("dist/RationalLaws.tla", "dist/RationalLaws.cfg", sub, "dist-rat", "laws " + name))
+    for name, fams in FN_GROUPS:
+        sub = dict(LAWS=", ".join('"%s"' % f for f in fams), TIER=tier, SALT=salt, EMIT="TRUE")
+        jobs.append(("dist/SpecialFunctions.tla", "dist/SpecialFunctions.cfg", sub, "dist-rat", "mathext " + name))
+    for kind in MV_KINDS:
+        sub = dict(KIND=kind, TIER=tier, SALT=salt, EMIT="TRUE")
+        jobs.append(("dist/MvLaws.tla", "dist/MvLaws.cfg", sub, "dist-mv", "distmv " + kind))
+
+    def one(job):
+        spec, cfg, sub, area, name = job
+        return lambda: (area, name, ctx.gen(spec, cfg, subst=sub, name="R1+R2 %s (lemmas checked, tables printed)" % name))
+
+    for area, name, cases in ctx.parallel([one(j) for j in jobs], width=4):
+        ctx.replay(binary, area, cases, name="R2 replay " + name)
 
 
 def run_samplers(ctx, binary, thorough):
